@@ -52,7 +52,7 @@ func cmdStress(args []string) int {
 		if store0 == nil {
 			store0 = []interface{}{}
 		}
-		env.Rec.Log(gate.Event{"e": "Init", "base": base, "nkeys": *nkeys, "store": store0, "engine": *engine, "prefixes": []interface{}{}})
+		env.Rec.Log(gate.Event{"e": "Init", "base": base, "nkeys": *nkeys, "store": store0, "engine": *engine, "prefixes": []interface{}{}, "expiring": []interface{}{}})
 		var mu sync.Mutex
 		known := make([]uint64, *nkeys+1) // last revision seen per key
 		var wg sync.WaitGroup
